@@ -42,7 +42,11 @@ ASSUMPTIONS = [
     "the constructor's cached datetime raises OverflowError/ValueError for |days| beyond the datetime range "
     "(years 1..9999); generators stay within it",
 ]
-TRUSTED = []
+TRUSTED = [
+    "Model/CdsSoftFloat.v as the definition of IEEE-754 binary64 round-to-nearest-even arithmetic (normal range) and "
+    "Model/CdsFloat.v as the transcription of CPython 3.12's fromtimestamp / timedelta(seconds=float) rounding: tied to "
+    "the running interpreter by bit-exact correspondence only",
+]
 ORACLE_LIMIT = {"quick": 100000, "thorough": 1000000}
 EXPLORED_ONLY = [
     "CPython's datetime.fromtimestamp / timedelta(seconds=float) / float division themselves: transcribed into "
